@@ -283,12 +283,33 @@ func (e *Exec) model(s *State, c *ssa.Call, fn *ssa.Function, full string, args 
 		}
 		unsupported("strings.Contains on non-concrete %s", a)
 	case "strings.HasPrefix":
-		as, ok1 := textArg(args[0]).concrete()
+		at := textArg(args[0])
+		as, ok1 := at.concrete()
 		bs, ok2 := textArg(args[1]).concrete()
 		if ok1 && ok2 {
 			return ret(mkBool(strings.HasPrefix(as, bs)))
 		}
+		if ok2 && singleAtom(at) {
+			// a deterministic unknown verdict; a string with that prefix is at
+			// least as long. For lower(x) with an ASCII prefix the ORIGINAL x is at
+			// least as long too: ToLower maps rune by rune and an ASCII rune in the
+			// output comes from an input rune of at least one byte.
+			a := at.Frags[0].Atom
+			hp := mkVar(fmt.Sprintf("hasprefix!%s!%q", a, bs), SBool)
+			s.assume(mkImplies(hp, mkCmp(">=", e.atomLen(s, a), mkInt(int64(len(bs))))))
+			if strings.HasPrefix(a, "lower(") && isASCII(bs) {
+				inner := strings.TrimSuffix(strings.TrimPrefix(a, "lower("), ")")
+				s.assume(mkImplies(hp, mkCmp(">=", e.atomLen(s, inner), mkInt(int64(len(bs))))))
+				s.Trace = append(s.Trace, "assume: strings.ToLower is rune-wise, so an ASCII prefix of ToLower(x) of n bytes implies len(x) >= n")
+			}
+			return ret(hp)
+		}
 		unsupported("strings.HasPrefix on non-concrete")
+	case "reflect.DeepEqual":
+		if t, ok := deepEqualVal(s, args[0], args[1], 0); ok {
+			return ret(t)
+		}
+		return ret(mkVar("deepeq!"+refTag(args[0])+"!"+refTag(args[1]), SBool))
 	case "strings.IndexRune":
 		t := textArg(args[0])
 		r, ok := args[1].(*T).intVal()
@@ -876,4 +897,91 @@ func refTag(v Val) string {
 		return sanitize(x.Tag)
 	}
 	return fmt.Sprintf("%T", v)
+}
+
+func isASCII(s string) bool {
+	for i := 0; i < len(s); i++ {
+		if s[i] >= 0x80 {
+			return false
+		}
+	}
+	return true
+}
+
+// deepEqualVal is reflect.DeepEqual on engine values where it is decidable
+// (func values are deeply equal only if both are nil).
+func deepEqualVal(s *State, a, b Val, depth int) (*T, bool) {
+	if depth > 8 {
+		return nil, false
+	}
+	switch x := a.(type) {
+	case *T:
+		y, ok := b.(*T)
+		if !ok {
+			return tFalse, true
+		}
+		return mkEq(x, y), true
+	case Text:
+		y, ok := b.(Text)
+		if !ok {
+			return tFalse, true
+		}
+		return textEq(x, y)
+	case Closure:
+		y, ok := b.(Closure)
+		return mkBool(ok && x.Fn == nil && y.Fn == nil), true
+	case Ref:
+		y, ok := b.(Ref)
+		if !ok {
+			return tFalse, true
+		}
+		if x.isNil() || y.isNil() {
+			return mkBool(x.isNil() && y.isNil()), true
+		}
+		if x == y {
+			return tTrue, true
+		}
+		return deepEqualVal(s, s.load(x), s.load(y), depth+1)
+	case Iface:
+		y, ok := b.(Iface)
+		if !ok {
+			return tFalse, true
+		}
+		if x.Dyn == nil || y.Dyn == nil {
+			return mkBool(x.Dyn == nil && y.Dyn == nil), true
+		}
+		if x.Dyn.String() != y.Dyn.String() {
+			return tFalse, true
+		}
+		return deepEqualVal(s, x.V, y.V, depth+1)
+	case *Agg:
+		y, ok := b.(*Agg)
+		if !ok || len(x.Elems) != len(y.Elems) {
+			return tFalse, true
+		}
+		var cs []*T
+		for i := range x.Elems {
+			t, ok := deepEqualVal(s, x.Elems[i], y.Elems[i], depth+1)
+			if !ok {
+				return nil, false
+			}
+			cs = append(cs, t)
+		}
+		return mkAnd(cs...), true
+	case SliceV:
+		y, ok := b.(SliceV)
+		if !ok || x.Len_ != y.Len_ || x.Arr.isNil() != y.Arr.isNil() {
+			return tFalse, true
+		}
+		var cs []*T
+		for i := 0; i < x.Len_; i++ {
+			t, ok := deepEqualVal(s, s.load(x.Arr.sub(x.Lo+i)), s.load(y.Arr.sub(y.Lo+i)), depth+1)
+			if !ok {
+				return nil, false
+			}
+			cs = append(cs, t)
+		}
+		return mkAnd(cs...), true
+	}
+	return nil, false
 }
